@@ -453,6 +453,19 @@ def retain (ord : List Nat) (t : Table) (body : Body) (failAt : Option Nat) : Ta
     match run ord (patch t fs) body with
     | (t', o, log) => (restore t' fs, o, log)
 
+/-- every call of the body goes to one of the patched slots -/
+def Body.callsIn (ord : List Nat) : Body → Prop
+  | .ret => True
+  | .raise => True
+  | .call s k => s ∈ ord ∧ Body.callsIn ord k
+  | .nest inner k => Body.callsIn ord inner ∧ Body.callsIn ord k
+
+/-- every slot of `ord` holds the wrapper of its original (the state inside a `retain_ltype()` block) -/
+def Patched (ord : List Nat) (t : Table) : Prop := ∀ s ∈ ord, t s = Fn.wrap (Fn.orig s)
+
+/-- the table before any patching: every slot holds its original -/
+def pristine : Table := fun q => Fn.orig q
+
 end Retain
 
 end PP.Batch
